@@ -563,11 +563,11 @@ func c6Sync(c *Ctx, lv map[string]int64) {
 	if c.Anchor("R6.4", "zapcore.ioCore.Write", fn != nil) {
 		name := fn.String()
 		var outWrite, sync *ssa.Call
-		for _, cl := range Calls(fn) {
+		for _, cl := range CallsDeep(fn) {
 			call, _ := cl.(*ssa.Call)
 			d := ""
 			if call != nil && len(Args(call)) > 0 {
-				d = Desc(Args(call)[0])
+				Bound(func() { d = Desc(Args(call)[0]) })
 			}
 			if IsCallTo(cl, "(io.Writer).Write", "(go.uber.org/zap/zapcore.WriteSyncer).Write") && d == "c.out" {
 				outWrite = call
@@ -598,7 +598,7 @@ func c6Sync(c *Ctx, lv map[string]int64) {
 					}
 					continue
 				}
-				if strings.HasSuffix(s, "== nil") { // the write's error
+				if strings.HasSuffix(s, "== nil") { // the write's error (possibly returned by a helper)
 					continue
 				}
 				other = append(other, s)
